@@ -548,3 +548,103 @@ def pix_expected(data):
             img[(2 * x) * side + y] = 255 - (v >> 4) * 17
             img[(2 * x + 1) * side + y] = 255 - (v & 15) * 17
     return b"P5\n%d %d\n255\n" % (side, side) + bytes(img)
+
+
+# ------------------------------------------------------------------ input analysers
+# Used only to attach *input-side* features to damaged files (known-finding patterns).
+
+
+def mge_rle_analysis(data):
+    """-> set of features of an MGE file with the run-length body."""
+    feats = set()
+    if len(data) < 51 or data[18] != 0:
+        return feats
+    pos, total = 51, 0
+    while pos < len(data):
+        c = data[pos]
+        if c == 0:
+            if total < 32000:
+                feats.add("mge-early-terminator")
+            break
+        if pos + 1 >= len(data):
+            break
+        if total < 32000 < total + c:
+            feats.add("run-crosses-image-end")
+        if total >= 32000:
+            feats.add("run-after-image-end")
+        total += c
+        pos += 2
+    return feats
+
+
+def rat_analysis(data):
+    feats = set()
+    if len(data) < 19:
+        return feats
+    esc = data[0]
+    pos, total = 19, 0
+    n = 199 * 160
+    while pos < len(data) and total < n:
+        if data[pos] != esc:
+            c = 1
+            pos += 1
+        else:
+            if pos + 2 >= len(data):
+                break
+            c = data[pos + 1]
+            pos += 3
+        if total + c > n:
+            feats.add("run-crosses-image-end")
+        total += c
+    return feats
+
+
+def cm3_analysis(data):
+    feats = set()
+    if len(data) < 30:
+        return feats
+    off = 29 + (0 if data[0] & 1 else 243)
+    if off < len(data) and data[off] < 192:
+        feats.add("cm3-lines<rows")
+    if off < len(data) and data[off] > 192:
+        feats.add("cm3-lines>rows")
+    return feats
+
+
+def vef_analysis(data):
+    feats = set()
+    if len(data) < 2:
+        return feats
+    t = {0: (80, 160), 1: (80, 160), 3: (40, 80), 4: (40, 80)}.get(data[1])
+    if t is None:
+        return feats
+    rec = t[0]
+    if any(b >= 64 for b in data[2:18]):
+        feats.add("vef-palette-code>=64")
+    if data[0] != 128:
+        if len(data) - 18 != rec * 400:
+            feats.add("vef-unsquashed-length-wrong")
+    else:
+        pos = 18
+        for _ in range(400):
+            if pos >= len(data):
+                break
+            count = data[pos]
+            chunk = data[pos + 1 : pos + 1 + count]
+            pos += count + 1
+            got = 0
+            i = 0
+            while i < count and i < len(chunk):
+                cb = chunk[i]
+                i += 1
+                if cb > 128:
+                    got += cb - 128
+                    i += 1
+                else:
+                    got += cb
+                    i += cb
+            if got < rec:
+                feats.add("vef-squashed-record-short")
+    if data[1] == 4:
+        feats.add("vef-type-640x200x2")
+    return feats
